@@ -2,7 +2,7 @@ from itertools import groupby
 import os
 import sqlite3
 import threading
-from typing import Dict, Iterator, List, Optional
+from typing import Dict, Iterator, List, Optional, Tuple
 
 from skepticoin.datatypes import Block, BlockHeader, BlockSummary, Input, Output, OutputReference, PowEvidence, Transaction  # noqa: E501
 from skepticoin.hash import sha256d
@@ -89,6 +89,18 @@ class BlockStore:
             self.sql('CREATE INDEX previous_block_hash ON chain(previous_block_hash)')
             self.sql('CREATE INDEX tr_locator_block_hash ON transaction_locator(block_hash)')
 
+        # Which transactions make up a block, in order. transaction_locator maps a transaction to ONE block only, but
+        # the same transaction can be part of several blocks (mined on competing forks; identical coinbases of sibling
+        # blocks). Blocks written before this table existed have no rows here and are still assembled from
+        # transaction_locator.
+        self.sql('''CREATE TABLE IF NOT EXISTS block_transactions (
+            block_hash blob REFERENCES chain(block_hash),
+            seq int,
+            transaction_hash blob REFERENCES transaction_locator(transaction_hash),
+            PRIMARY KEY(block_hash, seq)
+        )''')
+
+        if self.is_new:
             self.write_blocks_to_disk([Block.deserialize(genesis_block_data)])
 
         self.path = path
@@ -106,17 +118,23 @@ class BlockStore:
 
         blocks_param = []
         transactions_param = []
+        block_transactions_param = []
         transaction_inputs_param = []
         transaction_outputs_param = []
 
         for block in blocks:
             block_hash = block.hash()
-            for transaction in block.transactions:
+            for transaction_seq, transaction in enumerate(block.transactions):
                 transaction_bytes = transaction.serialize()
                 transaction_hash = sha256d(transaction_bytes)
                 transactions_param.append((
                     transaction_hash,
                     block_hash
+                ))
+                block_transactions_param.append((
+                    block_hash,
+                    transaction_seq,
+                    transaction_hash
                 ))
                 for seq, input in enumerate(transaction.inputs):
                     transaction_inputs_param.append((
@@ -153,6 +171,7 @@ class BlockStore:
         cur.executemany("insert or ignore into transaction_locator values (?,?)", transactions_param)
         cur.executemany("insert or ignore into transaction_outputs values (?,?,?,?)", transaction_outputs_param)
         cur.executemany("insert or ignore into transaction_inputs values (?,?,?,?,?)", transaction_inputs_param)
+        cur.executemany("insert or ignore into block_transactions values (?,?,?)", block_transactions_param)
         cur.execute('COMMIT')
         cur.close()
 
@@ -197,6 +216,14 @@ class BlockStore:
             for block_hash, builder_tuples
             in groupby(transaction_builders.items(), lambda item: item[1].block_hash)
         }
+
+        # blocks whose (ordered) list of transactions was recorded explicitly; they may share transactions with others
+        explicit_members: Dict[bytes, List[Tuple[bytes, TransactionBuilder]]] = {}
+        for (block_hash, transaction_hash) in self.sql(
+                "select block_hash, transaction_hash from block_transactions order by block_hash, seq"):
+            explicit_members.setdefault(block_hash, []).append(
+                (transaction_hash, transaction_builders[transaction_hash]))
+        block_builders.update(explicit_members)
 
         for row in self.sql(
                 """select height, previous_block_hash, merkle_root_hash, timestamp, target, nonce,
